@@ -456,7 +456,7 @@ Definition sh_atom (quoting : quoting) (st : state) : res (option atom * state) 
   | _ :: _ =>
     let mark := s in
     match expr s with
-    | Some (text, r) => Ok (Some (mk_atom ShtExpr text quoting), (iw, r))   (* text = lexer.Since(mark) *)
+    | Some (text, r) => Ok (Some (mk_atom ShtExpr text quoting), (true, r))   (* p.inWord = true; text = lexer.Since(mark) *)
     | None =>
       bind (sh_atom_dispatch quoting st) (fun '(oa, (iw', r)) =>
       match oa with
